@@ -2,6 +2,7 @@
 //!
 //!   vh lex-run lex            stdin {"id","text"}                  -> {"id","tokens":[[kind,sl,sc,el,ec,text]],"errors":[[sl,sc,el,ec,msg]],"panic"}
 //!   vh lex-run loc            stdin {"id","a":[4],"b":[4],"p":[2]} -> {"id","contains","contains_rev","cp","union","lt","le"}
+//!   vh lex-run loc-grid N     all pairs of locations over the N x N position grid, one hex digit each (see loc_grid_main)
 //!   vh lex-run monitor-batch  stdin {"id","sources":{mod:text}}    -> "BEGIN <id>" then one result line per input (child side)
 //!   vh lex-run monitor N      stdin as monitor-batch               -> one result line per input; children are `monitor-batch`
 //!                                                                      processes; abnormal exits and hangs are attributed and confirmed
@@ -103,6 +104,49 @@ fn loc_main() {
   }
 }
 
+/// All ordered pairs of locations over the n x n position grid: one hex digit per pair
+/// (8 = a.contains(b), 4 = b.contains(a), 2 = union.start == a.start, 1 = union.end == a.end),
+/// then one 0/1 digit per (location, position) for contains_position.  Same order as C14.Corr.
+fn loc_grid_main(args: &[String]) {
+  let n: u32 = args.first().and_then(|s| s.parse().ok()).unwrap_or(6);
+  let mut ps = Vec::new();
+  for l in 0..n {
+    for c in 0..n {
+      ps.push(Position(l, c));
+    }
+  }
+  let mut locs = Vec::new();
+  for s in &ps {
+    for e in &ps {
+      locs.push(Location { module_reference: ModuleReference::DUMMY, start: *s, end: *e });
+    }
+  }
+  let r = catch_unwind(AssertUnwindSafe(|| {
+    let mut pairs = String::with_capacity(locs.len() * locs.len());
+    for a in &locs {
+      for b in &locs {
+        let u = a.union(b);
+        let d = (a.contains(b) as u32) * 8 + (b.contains(a) as u32) * 4 + ((u.start == a.start) as u32) * 2 + ((u.end == a.end) as u32);
+        pairs.push(std::char::from_digit(d, 16).unwrap());
+      }
+    }
+    let mut cps = String::new();
+    for a in &locs {
+      for p in &ps {
+        cps.push(if a.contains_position(*p) { '1' } else { '0' });
+      }
+    }
+    (pairs, cps)
+  }));
+  match r {
+    Ok((pairs, cps)) => {
+      println!("{}", pairs);
+      println!("{}", cps);
+    }
+    Err(e) => println!("PANIC {}", panic_msg(e)),
+  }
+}
+
 // ------------------------------------------------------------------------------------------- monitor (C05 layer C)
 
 /// Significant tokens of `text` for the skipped/invented-token oracle: comments dropped;
@@ -155,6 +199,11 @@ struct StageOut {
   stages_ms: Vec<(String, u128)>,
 }
 
+fn stage(job: &Value, name: &str) {
+  println!("STAGE {} {}", job["id"], name);
+  let _ = std::io::stdout().flush();
+}
+
 fn run_pipeline(job: &Value) -> StageOut {
   let mut heap = Heap::new();
   let mut sources: HashMap<ModuleReference, String> = HashMap::new();
@@ -175,17 +224,24 @@ fn run_pipeline(job: &Value) -> StageOut {
   let mut error_set = ErrorSet::new();
   let mut parsed: HashMap<ModuleReference, Module<()>> = HashMap::new();
   // 1. parse
-  let t0 = std::time::Instant::now();
+  let mut parse_ms = 0u128;
+  let mut format_ms = 0u128;
   for (n, m) in &names {
     let text = sources.get(m).unwrap().clone();
     let mut local = ErrorSet::new();
-    match catch_unwind(AssertUnwindSafe(|| {
+    stage(job, "parse");
+    let t0 = std::time::Instant::now();
+    let parse_result = catch_unwind(AssertUnwindSafe(|| {
       samlang_parser::parse_source_module_from_text(&text, *m, &mut heap, &mut local)
-    })) {
+    }));
+    parse_ms += t0.elapsed().as_millis();
+    let t0 = std::time::Instant::now();
+    match parse_result {
       Ok(module) => {
         let syntax = local.errors().iter().filter(|e| e.is_syntax_error()).count();
         // 4. format + oracle (only modules without syntax errors are formatted, as the services do)
         if syntax == 0 {
+          stage(job, "format");
           match catch_unwind(AssertUnwindSafe(|| samlang_printer::pretty_print_source_module(&heap, 100, &module))) {
             Ok(printed) => {
               if let (Some(a), Some(b)) = (sig_tokens(&text), sig_tokens(&printed)) {
@@ -210,6 +266,7 @@ fn run_pipeline(job: &Value) -> StageOut {
       }
       Err(e) => out.panics.push((format!("parse {n}"), panic_msg(e))),
     }
+    format_ms += t0.elapsed().as_millis();
     out.n_syntax += local.errors().iter().filter(|e| e.is_syntax_error()).count();
     error_set.merge(local);
   }
@@ -229,8 +286,10 @@ fn run_pipeline(job: &Value) -> StageOut {
       error_set.merge(local);
     }
   }
-  out.stages_ms.push(("parse+format".into(), t0.elapsed().as_millis()));
+  out.stages_ms.push(("parse".into(), parse_ms));
+  out.stages_ms.push(("format".into(), format_ms));
   // 2. check
+  stage(job, "check");
   let t0 = std::time::Instant::now();
   if let Err(e) = catch_unwind(AssertUnwindSafe(|| {
     let _ = samlang_checker::type_check_sources(&parsed, &mut error_set);
@@ -240,6 +299,7 @@ fn run_pipeline(job: &Value) -> StageOut {
   out.stages_ms.push(("check".into(), t0.elapsed().as_millis()));
   out.n_errors = error_set.errors().len();
   // 3. render, both formats
+  stage(job, "render");
   let t0 = std::time::Instant::now();
   if let Err(e) = catch_unwind(AssertUnwindSafe(|| {
     let _ = error_set.pretty_print_error_messages(&heap, &sources);
@@ -255,6 +315,7 @@ fn run_pipeline(job: &Value) -> StageOut {
   }
   out.stages_ms.push(("render".into(), t0.elapsed().as_millis()));
   // 5. compile (whole program)
+  stage(job, "compile");
   let t0 = std::time::Instant::now();
   let entries: Vec<ModuleReference> = names.values().copied().collect();
   match catch_unwind(AssertUnwindSafe(|| samlang_compiler::compile_sources(&mut heap, sources.clone(), entries, false))) {
@@ -346,11 +407,18 @@ fn run_in_children(jobs: &[String], confirm: bool) -> Vec<Value> {
     let stderr = eh.join().unwrap_or_default();
     let mut done = 0;
     let mut in_progress = false;
+    let mut last_stage = String::new();
     for l in buf.lines() {
       if l.starts_with("BEGIN ") {
         in_progress = true;
+        last_stage.clear();
+      } else if l.starts_with("STAGE ") {
+        last_stage = l.rsplit(' ').next().unwrap_or("").to_string();
       } else if l.starts_with('{') {
-        if let Ok(v) = serde_json::from_str::<Value>(l) {
+        if let Ok(mut v) = serde_json::from_str::<Value>(l) {
+          if v["outcome"] == "hang" {
+            v["stage"] = json!(last_stage.clone());
+          }
           results.push(v);
           done += 1;
           in_progress = false;
@@ -383,7 +451,7 @@ fn run_in_children(jobs: &[String], confirm: bool) -> Vec<Value> {
       confirmed = json!(again.first().map(|v| v["outcome"] == "abort").unwrap_or(false));
     }
     results.push(json!({"id": job["id"], "outcome": "abort", "signal": sig, "exit_code": status.code(),
-                        "in_progress_marker_seen": in_progress, "stderr_tail": tail, "confirmed_alone": confirmed}));
+                        "in_progress_marker_seen": in_progress, "stage": last_stage, "stderr_tail": tail, "confirmed_alone": confirmed}));
     start = culprit + 1;
   }
   results
@@ -614,22 +682,23 @@ fn ex(heap: &Heap, e: &expr::E<()>) -> N {
 }
 
 fn member_decl(heap: &Heap, d: &ClassMemberDeclaration, body: Option<&expr::E<()>>) -> N {
-  let mut kids = vec![id_node(heap, &d.name)];
+  // source order: `function <T> name(params): ret = body`
+  let mut kids = Vec::new();
   if let Some(t) = &d.type_parameters {
     kids.push(tparams(heap, t));
   }
+  kids.push(id_node(heap, &d.name));
   kids.push(n(
     "FunctionParameters",
     d.parameters.location,
     d.parameters.parameters.iter().map(|p| grp("AnnotatedId", vec![id_node(heap, &p.name), annot(heap, &p.annotation)])).collect(),
   ));
   kids.push(annot(heap, &d.return_type));
-  let decl = n("ClassMemberDeclaration", d.loc, kids);
-  match body {
-    // the declaration's location covers the signature only; the body follows it
-    Some(b) => grp("ClassMemberDefinition", vec![decl, ex(heap, b)]),
-    None => decl,
+  // for a class member the declaration's location spans the body too (parse_class_member_definition)
+  if let Some(b) = body {
+    kids.push(ex(heap, b));
   }
+  n("ClassMemberDeclaration", d.loc, kids)
 }
 
 fn extends(heap: &Heap, e: &ExtendsOrImplementsNodes) -> N {
@@ -682,11 +751,18 @@ fn module_tree(heap: &Heap, m: &Module<()>) -> Vec<N> {
       }
       Toplevel::Class(c) => {
         let mut kids = vec![id_node(heap, &c.name)];
-        if let Some(tp) = &c.type_parameters {
-          kids.push(tparams(heap, tp));
-        }
-        if let Some(td) = &c.type_definition {
-          kids.push(typedef(heap, td));
+        // parse_class widens the type definition's location to start at the type parameter list
+        // (`class Box<T>(val v: T)`: the definition is `<T>(val v: T)`), so the type parameters
+        // are visited as the first child of the type definition when there is one.
+        match (&c.type_parameters, &c.type_definition) {
+          (Some(tp), Some(td)) => {
+            let mut tdn = typedef(heap, td);
+            tdn.kids.insert(0, tparams(heap, tp));
+            kids.push(tdn);
+          }
+          (Some(tp), None) => kids.push(tparams(heap, tp)),
+          (None, Some(td)) => kids.push(typedef(heap, td)),
+          (None, None) => {}
         }
         if let Some(e) = &c.extends_or_implements_nodes {
           kids.push(extends(heap, e));
@@ -953,13 +1029,15 @@ fn ast_locs_job(job: &Value) -> Value {
                   n_refs += 1;
                   if !inside(l) {
                     viol.push(json!({"what": "reference location outside its document or inverted", "module": nm, "pos": [p.0, p.1], "loc": loc4(l)}));
-                  } else if spell(l).as_deref() != Some(name.as_str()) {
+                  } else if name != "this" && spell(l).as_deref() != Some(name.as_str()) {
+                    // (`this` is defined by the enclosing member: its "definition" is a region)
                     viol.push(json!({"what": "reference location does not spell the queried name", "module": nm, "pos": [p.0, p.1],
                                      "loc": loc4(l), "name": name, "slice": spell(l)}));
                   }
                 }
                 for w in ls.windows(2) {
-                  if w[0].module_reference == w[1].module_reference && !(w[0].end <= w[1].start) {
+                  // (`this`: the definition is the enclosing region, which contains the uses)
+                  if name != "this" && w[0].module_reference == w[1].module_reference && !(w[0].end <= w[1].start) {
                     viol.push(json!({"what": "reference locations overlap", "module": nm, "pos": [p.0, p.1], "loc": loc4(&w[0]), "other": loc4(&w[1])}));
                   }
                 }
@@ -1002,6 +1080,7 @@ pub fn main(args: &[String]) {
   match args.first().map(|s| s.as_str()) {
     Some("lex") => lex_main(),
     Some("loc") => loc_main(),
+    Some("loc-grid") => loc_grid_main(&args[1..]),
     Some("monitor-batch") => monitor_batch_main(),
     Some("monitor") => monitor_main(&args[1..]),
     Some("ast-locs") => ast_locs_main(),
